@@ -366,12 +366,38 @@ def classify_part(chk, tools, decls, label):
     return bad
 
 
+FILLER = ('s', [('n', ('b', 'char'))])
+
+
+def odd_stack_prefix(index):
+    nl, nd = G.PRE_ARGS[index % len(G.PRE_ARGS)]
+    return (max(0, nl - 6) + max(0, nd - 8)) % 2 == 1
+
+
+# MIR block types carry no alignment: a 16-byte aligned aggregate that is passed in memory after an odd
+# number of 8-byte stack words lands 8 bytes off (gcc aligns it to 16).  Known finding, checked explicitly.
+ALIGN16_WITNESS = 's{ n bldouble }'
+
+
+def align16_witness(chk, tools):
+    idx = [i for i in range(len(G.PRE_ARGS)) if odd_stack_prefix(i)][0]
+    t = G.parse_text(ALIGN16_WITNESS)
+    bad, info = pass_failures(tools, [FILLER] * idx + [t])
+    chk.count('P ' + ALIGN16_WITNESS)
+    bad = [b for b in bad if b[0] == idx]
+    if bad:
+        chk.finding('passing:align16-odd-stack', dict(kind='passing', decl=ALIGN16_WITNESS, index=idx, prefix=list(G.PRE_ARGS[idx]),
+                                                     failures=bad, info=info),
+                    'a 16-byte aligned struct passed in memory after an odd number of stack words does not arrive intact: '
+                    '%s after %d longs' % (ALIGN16_WITNESS, G.PRE_ARGS[idx][0]))
+
+
 def pass_failures(tools, decls, modes=('-ei', '-eg')):
     res, info = tools.passing(decls, modes)
     bad = []
     for mode in modes:
         for i in range(len(decls)):
-            for d in 'arAR':
+            for d in 'arARvV':
                 if res[mode].get((i, d)) != 'ok':
                     bad.append((i, mode, d, res[mode].get((i, d), 'missing')))
     return bad, info
@@ -388,12 +414,21 @@ def passing_part(chk, tools, decls, label, modes=('-ei', '-eg')):
             chk.dist('passing_excluded', 'gcc-union-unnamed-bf')
         else:
             use.append(t)
+    # a 16-byte aligned aggregate passed in memory needs an even number of stack words before it (known
+    # finding passing:align16-odd-stack): keep such aggregates away from the prefixes that leave an odd number
+    placed = []
+    for t, m in [(t, m) for t, m in zip(decls, ms) if t in use]:
+        if m.get('align') == '16':
+            while odd_stack_prefix(len(placed)):
+                placed.append(FILLER)
+        placed.append(t)
+    use = placed
     bad, info = pass_failures(tools, use, modes)
     for t in use:
-        chk.count('P ' + G.ty_text(t), nontrivial=True, n=4 * len(modes))
-    chk.dist('passing_runs', 'ok', 4 * len(modes) * len(use) - len(bad))
+        chk.count('P ' + G.ty_text(t), nontrivial=True, n=6 * len(modes))
+    chk.dist('passing_runs', 'ok', 6 * len(modes) * len(use) - len(bad))
     chk.dist('passing_runs', 'BAD', len(bad))
-    chk.log('%s: %d aggregates x 4 directions x %s: %s' % (label, len(use), '/'.join(modes), '%d failures' % len(bad) if bad else 'all intact'))
+    chk.log('%s: %d aggregates x 6 directions x %s: %s' % (label, len(use), '/'.join(modes), '%d failures' % len(bad) if bad else 'all intact'))
     seen = set()
     for i, mode, d, what in bad[:4]:
         t = use[i]
@@ -412,7 +447,7 @@ def passing_part(chk, tools, decls, label, modes=('-ei', '-eg')):
         seen.add(txt)
         chk.finding('passing:%s' % txt, dict(kind='passing', decl=txt, original=G.ty_text(t), mode=mode, direction=d, what=what,
                                              prefix=list(G.PRE_ARGS[pos]), index=pos, info=info),
-                    'aggregate does not arrive intact between c2m (%s) and gcc code, direction %s (a/r: c2m caller, A/R: gcc caller; '
+                    'aggregate does not arrive intact between c2m (%s) and gcc code, direction %s (a/r/v: c2m caller, A/R/V: gcc caller, v/V variadic; '
                     'prefix %d longs %d doubles): %s' % (mode, d, G.PRE_ARGS[pos][0], G.PRE_ARGS[pos][1], txt))
     return bad
 
@@ -454,6 +489,7 @@ def run(chk):
             for k, v in layout_part(chk, tools, decls, 'layout batch %d' % b).items():
                 bad.setdefault(k, []).extend(v)
         padding_witness(chk, tools)
+        align16_witness(chk, tools)
         kb, kper = (2, 250) if quick else (20, 500)
         for b in range(kb):
             ds = gen_small(chk, kper, 'classify%d' % b)
@@ -472,7 +508,8 @@ def run(chk):
                            'how c2m does from the MIR signatures of c2m -S (with 7 different register-exhaustion prefixes), both compared '
                            'with the extracted c2mir and SysV classification models.  Passing: every small aggregate is passed and '
                            'returned by value in all four caller/callee combinations of c2m code (-ei and -eg) and a gcc-compiled shared '
-                           'library, after 0..7 scalar arguments and followed by two one-register structs, with a checksum of its non-padding bits')
+                           'library, after 0..9 scalar arguments (registers exhausted, stack words before it) and followed by two one-register '
+                           'structs, and as a variadic argument read by va_arg in both directions, with a checksum of its non-padding bits')
         if NOT_WF:
             chk.finding('harness:not-wf', dict(decls=NOT_WF[:5]), 'generated declarations outside the quantifier of layout_eq_sysv '
                         '(wf_ty false): ' + NOT_WF[0][:200], no_input=True)
